@@ -4,4 +4,5 @@ pub mod c06_safe_to;
 pub mod c07_parent_ready;
 pub mod c08_finality;
 pub mod c15_merkle;
+pub mod c18_standstill;
 pub mod world_run;
